@@ -66,6 +66,10 @@ type rscenario struct {
 	// SkipEmptyMsg: an unfragmented data message without payload is neither read nor discarded before
 	// the next NextFrame (there is nothing to receive; the read helpers do the same)
 	SkipEmptyMsg bool `json:"skipEmptyMsg"`
+	// SwapExt: after every message the caller installs a NEW message-state extension (a list of the same
+	// length, as when a reader is handed to the next connection); it is the new one that must be told
+	// about the following message
+	SwapExt bool `json:"swapExt"`
 	stream       []byte
 }
 
@@ -280,7 +284,7 @@ func runReader(sc *rscenario) (evs []interface{}) {
 	}
 	switch sc.Entry {
 	case "reader", "nextreader":
-		var ms wsflate.MessageState
+		ms := &wsflate.MessageState{}
 		var cbs []rcb
 		// the constructors rotate with the literal form (they must give the same reader)
 		var rd *wsutil.Reader
@@ -296,7 +300,7 @@ func runReader(sc *rscenario) (evs []interface{}) {
 		}
 		rd.CheckUTF8, rd.MaxFrameSize, rd.SkipHeaderCheck = sc.Utf8, int64(sc.Max), sc.Skip
 		if sc.Ext {
-			rd.Extensions = []wsutil.RecvExtension{&ms}
+			rd.Extensions = []wsutil.RecvExtension{ms}
 		}
 		rd.OnIntermediate = func(h ws.Header, r io.Reader) error {
 			var b []byte
@@ -443,6 +447,10 @@ func runReader(sc *rscenario) (evs []interface{}) {
 				if err == io.EOF {
 					frag = false
 					stop = true
+					if sc.SwapExt && sc.Ext {
+						ms = &wsflate.MessageState{}
+						rd.Extensions = []wsutil.RecvExtension{ms}
+					}
 				} else if err == errCallback || (err == wsutil.ErrInvalidUTF8 && sc.DiscardInvalid) {
 					frag = false
 					if !giveUp() {
